@@ -252,6 +252,8 @@ func injCatalogue(seed int64, nSoup int) []injection {
 	c = append(c, injection{ID: "cli_out_is_setup", Stage: "load", Must: "reject", Pos: "none", Slot: "cli", Solo: true, Args: []string{"-out", "setup.go", "setup.go"}})
 	c = append(c, injection{ID: "cli_dry_out_is_setup", Stage: "load", Must: "either", Pos: "none", Slot: "cli", Solo: true, Args: []string{"-dry", "-out", "setup.go", "setup.go"}})
 	c = append(c, injection{ID: "cli_out_is_setup_abs_dot", Stage: "load", Must: "reject", Pos: "none", Slot: "cli", Solo: true, Args: []string{"-out", "./setup.go", "setup.go"}})
+	// a flag that is no business of the input's: whatever the run makes of the setup file, it makes of it with -log too
+	c = append(c, injection{ID: "cli_log", Stage: "load", Must: "accept", Pos: "none", Slot: "cli", Args: []string{"-log", "setup.go"}})
 	// byte soup in notation position
 	alphabet := []string{":", "$", "/", "(", ")", ".", "\\", "[", "A", "map", "skip", "conv", "literal", " ", "*", "\"", "\u00a0", "\v", "\u2003"}
 	rng := rand.New(rand.NewSource(seed))
@@ -457,7 +459,10 @@ func C14(c *core.Ctx) {
 			sort.Strings(b.Inj)
 			// all single injections; a seeded sample of the pairs
 			if len(b.Inj) > 1 && hashMod(strings.Join(b.Inj, "+"), c.Seed, keep2) != 0 {
-				return
+				// the pairs with the -log flag are sampled more densely: one in four
+				if !(b.Inj[0] == "cli_log" || b.Inj[1] == "cli_log") || hashMod(strings.Join(b.Inj, "+"), c.Seed, 4) != 0 {
+					return
+				}
 			}
 			cases = append(cases, &b)
 		}})
